@@ -6,6 +6,7 @@ from ..interp import Interp, Hooks
 from ..values import *
 from .. import transfer as T
 from ..voro import find_terms
+from ..astutil import normaliser_functions
 from ..model import AnalysisError
 
 META = {
@@ -181,7 +182,7 @@ def run(ctx, repo, tier):
                   witness=f"selector {res.op}, cdist roles {roles}, axis {ax}")
         ctx.check(metric in ("euclidean", "cos", "cosine", "sqeuclidean"), "SELECT", tag + ".metric", "distance-like metric on unit vectors "
                   "(euclidean / cosine are order-equivalent there)", of.where, witness=str(metric))
-        nv = find_terms(cd, lambda t_: t_.op == "normalise_vectors") if cd is not None else []
+        nv = find_terms(cd, lambda t_: t_.op in normaliser_functions(repo)) if cd is not None else []
         ctx.check(bool(nv), "SELECT", tag + ".unit", "the centre of mass is reduced to its direction (normalised) before the comparison", of.where,
                   witness="com not normalised")
     # ------------------------------------------------------------ rotation selector
